@@ -5,6 +5,21 @@ ROOT = os.path.dirname(os.path.dirname(os.path.abspath(__file__)))
 
 # id -> (category, technique, text, note, design_ref)
 CHECKS = {
+ "C20": ("exploration",
+         "exhaustive enumeration of token concatenations up to a length bound on the real ParseParameters and through Parse+Describe on a live server, against an independent scanner",
+         "All concatenations of <=4 (quick) / <=5 (thorough) tokens from a 13-token alphabet ($0,$1,$2,$5,$01,$65535,$65536,$99999999,$2^63,$,?,x,space) are passed to the real ParseParameters (panic, allocation and length bounds, OIDs, count against an independent scanner) and, up to 2/3 tokens, through Parse+Describe(S) on a live server whose handler uses WithParameters(ParseParameters(q)). Exhaustive for that alphabet and bound only.",
+         "Trusts the 40-line independent scanner; length for indexes > 65535 and for mixed $n/? queries is not asserted (only totality and the bound).",
+         "DESIGN.md §3 C20"),
+ "C05": ("model_checking",
+         "exhaustive enumeration of handler programs (result-writer op sequences x statement counts x parser outcomes) executed on a real server over an in-memory transport; every writer call and cycle compared with a reference state machine",
+         "Handler behaviour is an enumerated input: every sequence of <=4 (quick) / <=5 (thorough) result-writer operations over a 10-op alphabet x {return nil, error} x {0,2 columns}, products of 2-3 statements, parser error / zero statements / blank queries, each as first and as second Query of a connection, is executed on a fresh real Server; bytes emitted by each writer call are attributed exactly and compared with the writer state machine and the cycle grammar.",
+         "Reply attribution relies on quiescence of the in-memory transport. Not asserted: T for column-less statements, C for statements returning nil without Complete, calls after a successful Empty() beyond return<=>emission consistency.",
+         "DESIGN.md §3 C05"),
+ "C06": ("model_checking",
+         "exhaustive enumeration of client message histories up to a depth bound over a 33-letter alphabet on a real server, per-message replies and callbacks checked against a set-valued (powerset) reference model",
+         "All histories of length <=3 over the full 33-letter alphabet, <=4 over a 16-letter core and <=5 over an 8-letter error core (thorough: 4/5/6) are replayed on a fresh real Server; after every message the quiescence-attributed reply and the callbacks must be allowed by at least one model state of the extended-protocol reference model (statements, portals, skipping).",
+         "Set-valued model tolerates what the statement leaves open (listed in the evidence assumptions). Depth-bounded; names fixed to two statements / two portals / one unknown.",
+         "DESIGN.md §3 C06"),
  "C17": ("exploration",
          "exhaustive enumeration of decorator nestings up to a depth bound, executed on the real code, compared against an independent reference walk",
          "All error shapes (every nesting of the 16 decorator letters up to depth 4 quick / 5 thorough over 3 base texts, plus nil) are built with the real decorators, serialised by the real ErrorCode (and through a live session up to depth 2/3) and the strictly parsed ErrorResponse is compared field by field with an independent outermost-first model. Exhaustive for the stated alphabet and depth, nothing beyond it.",
